@@ -186,7 +186,13 @@ func (s *TunnelServiceHandler) openReverseTunnel(stream tunnelpb.TunnelService_O
 	}
 
 	<-ch.Done()
-	return ch.Err()
+	err := ch.Err()
+	if err != nil {
+		// Record why the tunnel ended before the deferred Close runs, so that
+		// ch.Err() does not later report a clean close for a failed tunnel.
+		ch.close(err)
+	}
+	return err
 }
 
 func (s *TunnelServiceHandler) unregister(ch *tunnelChannel) {
